@@ -102,6 +102,10 @@ pub fn units_of(b: &Branch) -> Vec<Unit> {
     out
 }
 
+fn r_dbg(r: (u64, u32)) -> (u64, u32) {
+    r
+}
+
 fn pos_of(units: &[Unit], id: (u64, u32)) -> Option<usize> {
     units.iter().position(|u| u.contains(id))
 }
@@ -211,12 +215,24 @@ fn check_stickies(w: &mut World, n: usize) -> VResult {
                 // an element whose deletion was undone lives on in its copy (Item::redone, local
                 // to the replica that ran the undo manager)
                 let mut at = a;
+                let cont_dbg = r.cont.clone();
                 let mut lost = false;
                 let mut hops = 0;
                 while let Some(r) = units[p].redone {
                     let r = (r.0, r.1 + (at.1 - units[p].clock));
                     match pos_of(&units, r) {
                         Some(q) => {
+                            // the copy of an element is that element: same value (the hook shows
+                            // the redone link per item; inside a split item it must have moved on)
+                            if units[p].val.is_some() && units[q].val.is_some() && !units[p].val.as_deref().unwrap_or("").starts_with("N(") && units[p].val != units[q].val && units[p].ch.is_some() == units[q].ch.is_some() && at.1 == units[p].clock {
+                                return Err(viol(
+                                    "sticky.redone-link",
+                                    format!(
+                                        "node {}: element {:?} ({:?}) of {:?} was deleted and restored by undo, but its redone link leads to {:?} ({:?}): a sticky index anchored there follows it to the wrong element",
+                                        n, at, units[p].val, cont_dbg, r_dbg(r), units[q].val
+                                    ),
+                                ));
+                            }
                             p = q;
                             at = r;
                         }
@@ -291,13 +307,15 @@ fn check_stickies(w: &mut World, n: usize) -> VResult {
 }
 
 /// undo / redo of node 0's own transactions (every root in scope, one capture step per event)
-fn sticky_undo(w: &mut World, undo: bool) -> VResult {
+pub fn sticky_undo(w: &mut World, undo: bool) -> VResult {
     use yrs::undo::{Options, UndoManager};
     if w.mon.sticky.um.is_none() {
         let clock = Arc::new(AtomicU64::new(10_000));
+        let mut tracked = std::collections::HashSet::new();
+        tracked.insert(yrs::Origin::from("user"));
         let opts: Options<()> = Options {
             capture_timeout_millis: 500,
-            tracked_origins: std::collections::HashSet::new(),
+            tracked_origins: tracked,
             capture_transaction: None,
             timestamp: Arc::new(crate::undomon::SimClock(clock.clone())),
             init_undo_stack: Vec::new(),
